@@ -720,6 +720,10 @@ func (h *histGen) newLabel() string {
 		}
 	case 6:
 		n = fmt.Sprintf("boucle_%cé%d", wideRunes[h.g.Intn(len(wideRunes))], h.nlabel) // UTF-8 names
+	case 9:
+		if ss := srcStrings(); len(ss) > 0 { // words the library's own source knows
+			n = ss[h.g.Intn(len(ss))]
+		}
 	case 8:
 		// names that mean something to a formatter or a parser: format verbs, quotes, separators, blanks,
 		// the empty name
